@@ -5,3 +5,5 @@ package reader
 import "github.com/milvus-io/milvus/pkg/mq/msgstream"
 
 func verifYield(string, *msgstream.MsgPack) {}
+
+func verifGate(string, ...string) {}
